@@ -21,7 +21,7 @@ LEVEL = "model_checking"
 RULE = (
     "E2: one driver per solver (anneal, tabu_search, lns, alns, evolve, differential_evolution, particle_swarm, "
     "nelder_mead, bayesian_opt; bfgs/lbfgs with oracle objective and gradient); a state of the explored transition "
-    "system is a prefix of answers, a transition one answer; every complete execution (trace) is judged: the returned "
+    "system is a prefix of answers (a node of the choice tree, counted once), a transition one answer; every complete execution (trace) is judged: the returned "
     "point was evaluated, objective = memoised answer there in the user's sign, no evaluated point is better, "
     "evaluations = number of objective calls, bounded solvers stay in bounds; each trace is replayed under the mirrored "
     "problem (minimize flipped, answers negated) and must give the same point, the negated objective and the same "
@@ -281,7 +281,9 @@ def run_driver(r, name, cfg_index, max_execs=None):
         count += 1
         r["n"] += 1
         r["counters"]["traces"] += 1
-        r["counters"]["transitions"] += len(script.choices)
+        new_nodes = len(script.choices) - len(script.prefix) + 1  # nodes of the choice tree first reached by this execution
+        r["counters"]["states"] += new_nodes
+        r["counters"]["transitions"] += new_nodes if script.prefix else new_nodes - 1
         wit = {"solver": name, "config": {k: v for k, v in cfg.items()}, "minimize": True, "choices": list(script.choices)}
         if err:
             r["outcomes"][f"{name}:{err.split()[0]}"] += 1
@@ -317,7 +319,6 @@ def run_driver(r, name, cfg_index, max_execs=None):
         if len(r["violations"]) >= 30:
             r["capped"] = True
             break
-    r["counters"]["states"] += r["counters"]["transitions"] + count  # prefixes visited = internal nodes + leaves (upper bound: shared prefixes counted per trace)
     if not r["samples"]:
         r["samples"].append({"solver": name, "config": cfg, "executions": count})
 
